@@ -65,6 +65,9 @@ class RandomSched(Sched):
     def was_running(self, fid):
         return self.rng.random() < self.p_running
 
+    def submit_interrupt(self, k):
+        return self.rng.random() < self.p_cancel / 2
+
 
 class ListSched(Sched):
     """Replays a recorded list of structured choices (for --replay and corpus)."""
@@ -92,6 +95,12 @@ class ListSched(Sched):
     def was_running(self, fid):
         c = self._next("r")
         return bool(c[1]) if c else False
+
+    def submit_interrupt(self, k):
+        if self.i < len(self.choices) and self.choices[self.i][0] == "s" and self.choices[self.i][2] == k:
+            self.i += 1
+            return True
+        return False
 
 
 class EnumSched(Sched):
@@ -122,6 +131,9 @@ class EnumSched(Sched):
 
     def was_running(self, fid):
         return bool(self.choose(2, "running"))
+
+    def submit_interrupt(self, k):
+        return self.cancel and bool(self.choose(2, "submit-interrupt"))
 
     def successor(self):
         t = list(self.taken)
@@ -204,6 +216,15 @@ class FakeExecutor(real_cf.ThreadPoolExecutor):
 
     def submit(self, fn, /, *args, **kwargs):
         ctx = self.ctx
+        if ctx.spec["kind"] == "blocking" and ctx.spec.get("allow_cancel") and not ctx.removed \
+                and ctx.open_ev is not None and ctx.open_ev[0] == "goal":
+            k = len(ctx.futs)
+            if ctx.sched.submit_interrupt(k):
+                # Ctrl-C arrives inside this executor.submit, before the job is accepted
+                j = sum(1 for a in ctx.acts[ctx.act_mark:] if a[0] == "submit")
+                ctx.choices.append(("s", 1, k))
+                ctx.open(("subcancel", j))
+                raise HarnessInterrupt("interrupt inside executor.submit")
         f = FakeFuture(ctx, len(ctx.futs), fn, args)
         ctx.futs.append(f)
         ctx.act(("submit", f.fid, args[0]))
@@ -325,6 +346,7 @@ class Ctx:
         self.nsub = 0
         self.first_snap = None
         self.sub_point = {}       # fid -> point submitted
+        self.removed = False      # learner.remove_unfinished() was called: the runner is in its finally block
         self.all_result_calls = set()
 
     # ---- interning of points and values (real learners have float points)
@@ -387,6 +409,7 @@ class Ctx:
             return tell0(x, y)
 
         def remove_unfinished():
+            ctx.removed = True
             ctx.act(("remove",))
             return rem0()
 
@@ -509,7 +532,8 @@ class Ctx:
     # ---- BlockingRunner: replacement of concurrent.futures.wait
     def cf_wait(self, fs, timeout=None, return_when=real_cf.ALL_COMPLETED):
         fs = list(fs)
-        if return_when == real_cf.FIRST_COMPLETED:
+        if not self.removed:
+            # a wait of the main loop
             self.close("InWait", nwait=len(fs))
             if not fs:
                 self.machinery.append("wait([]) reached (scenario should avoid it)")
@@ -518,6 +542,9 @@ class Ctx:
             cand = [f.fid for f in fs if not f.done()]
             if already:
                 self.machinery.append("done future still pending at wait")
+            if not cand:
+                self.open(("wait", [f.fid for f in already]))
+                return real_cf._base.DoneAndNotDoneFutures(OrderedDone(already), set())
             kind, sel = self.sched.main_wait(cand, self.spec.get("allow_cancel", False))
             self.choices.append(("w", kind, list(sel)))
             if kind == "cancel":
@@ -525,12 +552,16 @@ class Ctx:
                     self.complete_fake(self.futs[fid])
                 self.open(("cancel",))
                 raise HarnessInterrupt("interrupt")
+            if return_when == real_cf.ALL_COMPLETED:
+                sel = list(sel) + [f for f in cand if f not in sel]
             for fid in sel:
                 self.complete_fake(self.futs[fid])
             self.open(("wait", list(sel)))
             done = [self.futs[fid] for fid in sel]
             return real_cf._base.DoneAndNotDoneFutures(OrderedDone(done), {f for f in fs if f not in done})
-        # shutdown: wait(remaining)
+        # the finally block: wait(remaining).  What a real pool does: cancelled jobs are dropped (and
+        # count as done), running ones finish; with ALL_COMPLETED the wait returns when all are done,
+        # with FIRST_COMPLETED as soon as one is.
         self.close("Stopping")
         got = []
         for f in fs:
@@ -538,16 +569,20 @@ class Ctx:
                 f.set_running_or_notify_cancel()      # the worker notices the cancellation
             elif f.done():
                 got.append(f.fid)
-            else:
+        for f in fs:
+            if not f.done():
+                if return_when != real_cf.ALL_COMPLETED and any(g.done() for g in fs):
+                    continue                          # the wait has already returned: still running
                 self.complete_fake(f)                 # was running: delivers its result
                 got.append(f.fid)
         self.open(("shutdown", got))
-        return real_cf._base.DoneAndNotDoneFutures(set(fs), set())
+        done = {f for f in fs if f.done()}
+        return real_cf._base.DoneAndNotDoneFutures(done, {f for f in fs if f not in done})
 
     # ---- AsyncRunner: replacement of asyncio.wait
     async def aio_wait(self, fs, *, timeout=None, return_when=real_asyncio.ALL_COMPLETED):
         fs = list(fs)
-        if return_when == real_asyncio.FIRST_COMPLETED:
+        if not self.removed:
             self.close("InWait", nwait=len(fs))
             if not fs:
                 self.machinery.append("asyncio.wait([]) reached (scenario should avoid it)")
@@ -558,6 +593,8 @@ class Ctx:
             else:
                 kind, sel = "done", []
             self.choices.append(("w", kind, list(sel)))
+            if kind == "done" and return_when == real_asyncio.ALL_COMPLETED:
+                sel = list(sel) + [f for f in cand if f not in sel]
             self.open(("wait", already + list(sel)) if kind == "done" else ("cancel",))
             self.loop.call_soon(self.apply_async, kind, list(sel))
             done, pending = await real_asyncio.wait(fs, return_when=return_when)
@@ -571,6 +608,8 @@ class Ctx:
         self.open(("shutdown", []))
         # a future nobody asked to cancel would keep the runner waiting for ever: its worker finishes it
         stray = [self.fid(f) for f in fs if not f.done() and self.fid(f) not in self.cancel_calls]
+        if stray and return_when != real_asyncio.ALL_COMPLETED and len(stray) < len(fs):
+            stray = []                                # the wait returns on the first cancelled one
         if stray:
             self.loop.call_soon(self.apply_async, "done", stray)
         done, pending = await real_asyncio.wait(fs, return_when=return_when)
@@ -653,6 +692,20 @@ def classify_exc(ctx, exc):
                 return "Failed", i
         return "Failed", None
     return "Other:" + type(exc).__name__, None
+
+
+def safe_run(col, spec, sched, origin):
+    """run_case that survives a harness-side exception: the case is reported (fail closed) and the
+    check goes on with the remaining cases."""
+    import traceback
+    try:
+        return run_case(spec, sched)
+    except Exception:       # noqa: BLE001
+        tb = traceback.format_exc()
+        if col._cap("driver"):
+            col.chk.broke("machinery", f"controlled scheduler could not drive the runner ({origin})",
+                          {"what": tb[-1200:], "spec": spec, "choices": [list(c) for c in getattr(sched, "taken_choices", [])]})
+        return None
 
 
 def run_case(spec, sched) -> Rec:
@@ -754,6 +807,8 @@ def ev_term(ctx, ev):
         return f"(Goal {C.bool_(ev[1])})"
     if ev[0] == "cancel":
         return "Cancel"
+    if ev[0] == "subcancel":
+        return f"(SubmitCancel {C.nat(ev[1])})"
     body = C.lst(C.pair(C.nat(f), _outcome(ctx, o)) for f, o in ev[1])
     return f"({'Wait' if ev[0] == 'wait' else 'Shutdown'} {body})"
 
@@ -880,7 +935,8 @@ def features(rec: Rec):
     return {"multi": multi, "ooo": ooo, "nfail": nfail, "nretry": nretry,
             "outstanding": any(st["snap"]["phase"] == "Stopping" for st in rec.steps),
             "late_result": any(st["ev"][0] == "shutdown" and st["ev"][1] for st in rec.steps),
-            "cancelled": any(st["ev"][0] == "cancel" for st in rec.steps),
+            "cancelled": any(st["ev"][0] in ("cancel", "subcancel") for st in rec.steps),
+            "submit_interrupt": any(st["ev"][0] == "subcancel" for st in rec.steps),
             "why": (last["why"] or ("?",))[0],
             "exhausted": any(n > rec.spec["retries"] for n in _fail_counts(rec).values())}
 
@@ -908,6 +964,7 @@ class Collector:
                       "steps": 0, "kind": {}, "learner": {}, "why": {}, "ntasks": {},
                       "multi_completion_runs": 0, "out_of_order_runs": 0, "runs_with_failures": 0,
                       "runs_with_retries": 0, "runs_with_exhausted_point": 0, "cancelled_runs": 0,
+                      "interrupted_inside_submit_runs": 0,
                       "stopped_with_outstanding_futures": 0, "late_results_at_shutdown": 0,
                       "oracle_failures": 0}
         self.n = 0
@@ -924,6 +981,8 @@ class Collector:
         return self.sig_count[sig] <= 3
 
     def add(self, rec: Rec, origin: str, coq=True):
+        if rec is None:
+            return
         chk, st = self.chk, self.stats
         st["runs"] += 1
         st["steps"] += len(rec.steps)
@@ -937,6 +996,7 @@ class Collector:
         st["runs_with_retries"] += ft["nretry"] > 0
         st["runs_with_exhausted_point"] += ft["exhausted"]
         st["cancelled_runs"] += ft["cancelled"]
+        st["interrupted_inside_submit_runs"] += ft["submit_interrupt"]
         st["stopped_with_outstanding_futures"] += ft["outstanding"]
         st["late_results_at_shutdown"] += ft["late_result"]
         chk.note_case((json.dumps(rec.spec, sort_keys=True), rec.choices), self.nontrivial(rec, ft))
